@@ -113,9 +113,7 @@ def to_tlc(tr):
         else:
             continue
         evs.append(o)
-    acts = [x["t"] for x in evs if x["k"] not in ("eoi", "final")]
-    quiet_end = (not acts) or max(acts) < 0.75 * T
-    quiescent = bool(cfg.get("drains")) and tr["outcome"] == "ok" and quiet_end
+    quiescent = bool(cfg.get("drains")) and tr["outcome"] == "ok" and bool(tr.get("quiet_end"))
     return {"cfg": {"nodes": nodes, "edges": edges, "T": T}, "ev": evs, "name": cfg.get("name", ""),
             "expect": cfg.get("expect", "valid"), "outcome": tr["outcome"], "maxi": tr.get("max_events_per_instant", 0),
             "bound": 200 * (len(nodes) + len(edges)), "quiescent": quiescent, "offgrid": offgrid,
